@@ -118,6 +118,10 @@ later = sum(1 for s in seeded if s['detection'].startswith('MISSED') and 'CAUGHT
 missed = len(seeded) - caught - later
 out.append('Totals: %d kept; %d caught by the check as it stood, %d missed at first and caught after the harness was strengthened, '
            '%d still missed (outside the stated claim of the check; reasons in the table).\n' % (len(seeded), caught, later, missed))
+out.append('One further change delivered for C11 (deserialize_address cutting `address_bytes[-25:-4]`, accepting extra leading `1` '
+           'characters) was MISSED by the check as it stood; building the address-level jobs for it exposed two genuine defects of '
+           'the unchanged tree in the same lines (fixed 58a7674, c211cd0). With those repairs the change no longer has an effect '
+           '(its demo passes), so it is not kept as a seeded change.\n')
 out.append('| seeded change | needs, to manifest | detection |\n|---|---|---|')
 for s in seeded:
     out.append('| `%s` | %s | %s |' % (s['id'], cell(s['needs_to_manifest']), cell(s['detection'])))
